@@ -67,7 +67,7 @@ def check(name, props, runs):
         for prop in props:
             cmd = [os.path.join(VERIF, "bin", "check"), prop, "--no-selftest"] + (["--runs", str(runs)] if runs else [])
             t0 = time.time()
-            r = subprocess.run(cmd, capture_output=True, text=True, env=dict(os.environ, VERIF_REPO=s, VERIF_OUT=o))
+            r = subprocess.run(cmd, capture_output=True, text=True, env=dict(os.environ, VERIF_REPO=s, VERIF_OUT=o, VERIF_STOP_EARLY="1"))
             clause = [l.strip() for l in r.stdout.split("\n") if l.strip().startswith("clause=")]
             res[prop] = {"exit": r.returncode, "clause": clause[0][:160] if clause else "", "wall": round(time.time() - t0, 1),
                          "tail": "" if r.returncode in (0, 1) else (r.stdout + r.stderr)[-400:]}
